@@ -151,6 +151,13 @@ def check_concrete(model, rep, m):
                         bad = bad or f'a chain of {n} distinctly named elements is rejected with {o.value}'
                     if dup and raised and any(e[0] == 'store' and e[1] == 'self' for e in o.state.effects):
                         bad = bad or 'the duplicate is reported after the powertrain has been (partly) assembled'
+                    # ... and a rejected chain must leave its elements as they were: marks put on them during the walk and not taken
+                    # off again on the raising path make the next assembly of the same elements behave differently
+                    left = sorted({(e[1], e[2]) for e in o.state.effects if e[0] == 'store' and e[1] != 'self'
+                                   and not (getattr(o.state.heap.get((e[1], e[2])), 'text', None) == '<deleted>')})
+                    if raised and left:
+                        bad = bad or (f'the chain named {["name%d" % k for k in pat]} is rejected with {o.value} after `{left[0][1]}` was written on '
+                                      f'its elements and not removed: the elements are not what they were before the attempt')
     except CannotDecide as e:
         rep.cannot('C20.rejects', 'Powertrain.__init__[duplicate names]', str(e), m.loc)
         return
